@@ -51,7 +51,7 @@ impl Submissions {
         // underflow.
         let head = load_kernel_shared(shared.submissions_head);
         let tail = load_kernel_shared(shared.submissions_tail);
-        if tail.wrapping_sub(head) > len {
+        if tail.wrapping_sub(head) >= len {
             unlock(submissions_guard);
             return Err(QueueFull);
         }
